@@ -735,6 +735,17 @@ def scripted():
           cfg=(c0, 1000000, 10000, 5000))
         h('heartbeat-slot-reused-other-client-id-%d' % c0, 'hb 1000000; hc 1; as 1 1; tk 501; w; we sr %d 6; fs %d; hc 3; tk 501; w; fs %d; ps %d' % (a, a, a, a),
           cfg=(c0, 1000000, 10000, 5000))
+    # an ERROR event whose offending id is an ALREADY REGISTERED resource (the driver answers twice / late): on_error_response marks it Errored,
+    # but a handle that exists keeps being handed out, and close / client time-out still closes it (callbacks exactly once)
+    h('error-for-registered-counter-held', 'hb 1000000; ac 1 1 1; we cr 1 9; fc 1; we er 1 3; fc 1; pc 1; fc 1; cl; pc 1; fc 1')
+    h('error-for-registered-counter-held-client-timeout', 'hb 1000000; ac 1 1 1; ac 2 2 2; we cr 1 9; we cr 2 8; fc 1; fc 2; we er 1 3; fc 1; fc 2; we ct 0; pc 1; pc 2; fc 1')
+    h('error-for-registered-counter-cached', 'hb 1000000; ac 1 1 1; we cr 1 9; we er 1 3; fc 1; pc 1; fc 1; we ct 0; pc 1')
+    h('error-for-registered-counter-cached-then-stall', 'hb 1000000; ac 1 1 1; we cr 1 9; we er 1 3; fc 1; tk 5001; hb 1005001; w; pc 1; fc 1')
+    h('error-for-registered-publication-held', 'hb 1000000; ap 1 1; we pr 1 1 1 5 3 4; fp 1; we er 1 3; fp 1; pp 1; cl; pp 1; fp 1')
+    h('error-for-registered-publication-not-looked-up', 'hb 1000000; ap 1 1; we pr 1 1 1 5 3 4; we er 1 3; fp 1; fp 1; cl')
+    h('error-for-registered-subscription-held', 'hb 1000000; as 1 1; we sr 1 6; fs 1; we ai 50 1 2 1; we er 1 3; fs 1; ps 1; cl; ps 1; fs 1')
+    h('error-for-registered-subscription-cached', 'hb 1000000; as 1 1; we sr 1 6; we ai 50 1 2 1; we er 1 3; fs 1; ps 1; fs 1; we ct 0; ps 1')
+    h('error-for-registered-destination', 'hb 1000000; ad 0 1 1; we os 1; fd 1; we er 1 3; fd 1; fd 1')
     if has_find_excl_hook():
         h('chan-error-xpub', 'hb 1000000; ax 1 1; ax 2 2; ax 3 3; we xr 1 1 5 3 6; we xr 2 2 5 3 6; we xr 3 3 5 3 7; fx 1; fx 3; we er 6 4; px 1; fx 1; fx 2; fx 3; px 3; dx 1; we er 6 4; fx 2; cl')
     if has_find_excl_hook():
@@ -748,6 +759,7 @@ def scripted():
         h('xpub-ring-full-drop', 'hb 1000000; ax 4 9; we xr 1 9 5 3 4; fx 1; rf 1; dx 1; fx 1; rf 0; fx 1; cl')
         h('xpub-close-then-drop', 'hb 1000000; ax 1 1; we xr 1 1 5 3 4; cx 1; fx 1; cx 1; px 1; fx 1; dx 1; fx 1; cx 1; ax 2 2 488; we xr 3 2 5 3 4; fx 3; cx 3; cl; px 3; dx 3')
         h('xpub-drop-while-conductor-locked', 'hb 1000000; ax 4 9; we xr 1 9 5 3 4; fx 1; Dx 1; fx 1; Dx 1; ax 4 9; we xr 3 9 5 3 4; fx 3; cx 3; Dx 3')
+        h('error-for-registered-xpub', 'hb 1000000; ax 4 9; ax 5 9; we xr 1 9 5 3 4; we xr 2 9 5 3 4; fx 1; we er 1 3; we er 2 3; fx 1; px 1; fx 2; fx 2; cl; px 1')
         h('xpub-same-while-held', 'hb 1000000; ax 4 9; ax 4 9; we xr 2 9 5 3 4; we xr 1 9 5 3 4; fx 2; fx 1; fx 2; fx 1; px 1; px 2; dx 2; fx 1; fx 2')
     return [conv(c) for c in H]
 
